@@ -156,6 +156,12 @@ struct UnitCfg {
 	prelude: Vec<String>,
 	#[serde(default)]
 	spec: String,
+	/// (runner) SMT resource limit for this unit
+	#[serde(default)]
+	rlimit: Option<u32>,
+	/// (runner) "thorough": only in the thorough tier
+	#[serde(default)]
+	tier: Option<String>,
 	#[serde(default)]
 	tail: String,
 	#[serde(default)]
@@ -182,6 +188,9 @@ struct IncludeRef {
 	/// do not import the include file's spec block (when only type definitions are wanted)
 	#[serde(default)]
 	no_spec: bool,
+	/// do not import the include file's prelude list
+	#[serde(default)]
+	no_prelude: bool,
 }
 fn default_true() -> bool {
 	true
@@ -1381,7 +1390,7 @@ fn main() {
 			let ip = dir.join("inc").join(format!("{}.toml", inc.file));
 			let t = std::fs::read_to_string(&ip).unwrap_or_else(|e| die(&format!("{}: {}", ip.display(), e)));
 			let ic: UnitCfg = toml::from_str(&t).unwrap_or_else(|e| die(&format!("{}: {}", ip.display(), e)));
-			for p in ic.prelude {
+			for p in ic.prelude.iter().filter(|_| !inc.no_prelude).cloned() {
 				if !inc_prelude.contains(&p) && !cfg.prelude.contains(&p) {
 					inc_prelude.push(p);
 				}
